@@ -583,7 +583,8 @@ theorem foreign_annotation_untouched (env : Env) (c : AnnCfg) (hp : c.pfx ≠ []
     fun value pt hv h => isolation_touch_ann env c body patch0 pt value hv hw h _ (hnames _) hmark⟩
 
 /-- **Records of operators using another prefix**: no store, purge or touch under prefix `c.pfx`
-    changes any annotation `<p'>/<n'>` of a different plain prefix `p'`. -/
+    changes any annotation `<p'>/<n'>` of a different plain prefix `p'` (every `validPrefix` is
+    plain: `plain_of_valid`). -/
 theorem other_prefix_untouched (env : Env) (c : AnnCfg) (hp : PlainPrefix c.pfx) (p' n' : Str)
     (hp' : PlainPrefix p') (hne : p' ≠ c.pfx) (body patch0 : J) (hw : wf patch0 = true) :
     (∀ k r ps, annStore env c body patch0 k r = .ok ps →
